@@ -19,7 +19,7 @@ pub fn def() -> PropDef {
         id: "C17",
         run,
         quick_runs: 16000,
-        thorough_runs: 400_000,
+        thorough_runs: 1_500_000,
         level: "exploration",
         rule: "mostly a configuration sweep riding on the simulator: queues-per-thread configuration = assignment number (index mod sweep size) of 1..=4 queues to 1..=3 masks over 5 bit positions (sparse, interleaved, overlapping masks, bits beyond the queue count) for index below the sweep size, random up to 6 queues beyond; every queue gets a distinct size, is started, enabled and kicked in a drawn order while the workers run concurrently; custom listeners with ids from {num_queues-1, num_queues, num_queues+1, 255, 65535, 65536+k, 2^32+k} are registered on drawn workers and fired; oracle: reference routing function (owner = first mask containing q, event id = number of lower set bits, vrings[event id] is queue q), listener accepted iff id > num_queues and delivered with exactly the registered id on its worker, no worker terminates; non-trivial = >= 2 queues or a listener",
         assumptions: ASSUME,
